@@ -583,6 +583,10 @@ func (c *compiler) arrayOperator(l interface{}, r interface{}, op string) (inter
 	var err error
 	switch op {
 	case "+":
+		if reflect.TypeOf(l).Kind() != reflect.Slice {
+			return nil, fmt.Errorf("cannot append to %T: only slices can grow", l)
+		}
+
 		elemType := reflect.TypeOf(l).Elem()
 		if elemType.Kind() != reflect.Interface {
 			t := reflect.ValueOf(r).Type()
